@@ -145,6 +145,10 @@ def run(tier):
         ts = [''.join(t) for t in texts][:: (3 if tier == 'quick' else 1)]
         tcases.append({'ebnf': to_ebnf(g), 'g': g, 'cfg': make_cfg(chars_of(g, texts)), 'texts': ts})
     trace_validate(ck, tcases, label='C01 universe')
+    # ... and the executions the repository's own tests perform (arbitrary real grammars: regexes and whitespace through oracle tables,
+    # semantic actions through recorded act events)
+    from ..suitetraces import suite_part
+    suite_part(ck, tier, 'model', 'test-suite parses (model interpreter)')
     ck.cov['distinct_nontrivial'] = len(nontrivial)
     ck.cov['exhaustive'] = tier == 'thorough'
     ck.cov['rule'] = ('grammars: every expression with <=1 operator node over 9 leaves, '
